@@ -145,6 +145,7 @@ func sweepInputs(n *Node) []sweepInput {
 // applySweep applies one sweep input under the C11 oracle. Returns a description if it is a violation.
 func (n *Node) applySweep(in sweepInput) (key, msg string) {
 	before := fingerprint(n, fpSeenSkip)
+	viewBefore := n.d.ViewNumber
 	ops := n.t.ops
 	nb := n.broadcasts
 	viol := len(n.w.viol)
@@ -166,6 +167,10 @@ func (n *Node) applySweep(in sweepInput) (key, msg string) {
 	after := fingerprint(n, fpSeenSkip)
 	switch {
 	case after != before:
+		if in.redelivery && in.p.typ == dbft.ChangeViewType && n.d.ViewNumber > viewBefore && in.p.body.(*changeView).newView == n.d.ViewNumber {
+			// the stored change views already formed a quorum for this view, the node had not noticed
+			return "C11/state-changed/redelivery-CV/completes-unnoticed-lower-view-quorum", "re-delivered stored ChangeView moved the node to the next view: " + in.String()
+		}
 		return "C11/state-changed/" + in.class, "inadmissible input changed the node's state: " + in.String()
 	case n.t.ops != ops:
 		return "C11/timer-touched/" + in.class, "inadmissible input touched the timer: " + in.String()
